@@ -95,14 +95,14 @@ def obj_of(system, mom, vals):
 
 
 NUMPY_LAYOUTS = ["np()", "np(3)", "np(2,2)"]
-AWK_LAYOUTS = ["ak-flat", "ak-jagged", "ak-nested", "ak-option", "ak-record", "ak-rawzip"]
+AWK_LAYOUTS = ["ak-flat", "ak-jagged", "ak-nested", "ak-option", "ak-record", "ak-rawzip", "ak-regular"]
 
 
 def nest(layout):
     """shape of the nested python structure (lists of element slots; None = missing)"""
     return {"np()": "E", "np(3)": ["E", "E", "E"], "np(2,2)": [["E", "E"], ["E", "E"]],
             "ak-flat": ["E", "E", "E"], "ak-jagged": [["E", "E"], [], ["E"]], "ak-nested": [[["E"], ["E", "E"]], [], [[]]],
-            "ak-option": [["E", None], None, ["E"]], "ak-record": "E", "object": "E", "ak-rawzip": [["E", "E"], [], ["E"]]}[layout]
+            "ak-option": [["E", None], None, ["E"]], "ak-record": "E", "object": "E", "ak-rawzip": [["E", "E"], [], ["E"]], "ak-regular": [["E", "E", "E"], ["E", "E", "E"]]}[layout]
 
 
 def fill(struct, f):
@@ -154,6 +154,8 @@ def build(layout, system, mom, rng, extras=False):
             r.update(charge=int(round(e[names[0]] * 7)) % 5 - 2, weight=e[names[1]] * 0.5)
         return r
     arr = vector.Array(struct_map(struct, conv))
+    if layout == "ak-regular":
+        arr = ak.to_regular(arr, axis=1)          # fixed-size inner dimension: type "2 * 3 * Vector..."
     if extras == "rich":
         # list-valued and string-valued extra fields (attached afterwards: vector.Array only accepts numeric record fields)
         def rich(e, what):
